@@ -257,3 +257,48 @@ impl PeriodicStoreBuilder {
         PeriodicStore::with_config(self.capacity, self.cleanup_interval)
     }
 }
+
+#[cfg(feature = "verif")]
+fn verif_ns(t: SystemTime) -> i128 {
+    match t.duration_since(SystemTime::UNIX_EPOCH) {
+        Ok(d) => d.as_nanos() as i128,
+        Err(e) => -(e.duration().as_nanos() as i128),
+    }
+}
+
+#[cfg(feature = "verif")]
+fn verif_entries(data: &HashMap<String, (i64, Option<SystemTime>)>) -> String {
+    let mut v: Vec<String> = data
+        .iter()
+        .map(|(k, (val, exp))| {
+            let hex: String = k.bytes().map(|b| format!("{b:02x}")).collect();
+            let e = match exp {
+                Some(t) => verif_ns(*t).to_string(),
+                None => "never".to_string(),
+            };
+            (hex, format!("{val}:{e}"))
+        })
+        .map(|(h, r)| format!("{h}:{r}"))
+        .collect();
+    v.sort();
+    v.join(",")
+}
+
+#[cfg(feature = "verif")]
+impl PeriodicStore {
+    /// Verification hook: canonical dump of entries and scheduling state.
+    pub fn verif_snapshot(&self) -> String {
+        format!(
+            "periodic next={} interval={} expired={} entries={}",
+            verif_ns(self.next_cleanup),
+            self.cleanup_interval.as_nanos(),
+            self.expired_count,
+            verif_entries(&self.data)
+        )
+    }
+
+    /// Verification hook: (len, capacity) of the table.
+    pub fn verif_len_capacity(&self) -> (usize, usize) {
+        (self.data.len(), self.data.capacity())
+    }
+}
